@@ -4,6 +4,12 @@ are recorded and validated under the property's obligation."""
 KINDS = {
     "seq": ["arraylist", "singlylinkedlist", "doublylinkedlist"],
     "map": ["hashmap", "treemap", "linkedhashmap", "redblacktree", "avltree", "btree", "hashbidimap", "treebidimap"],
+    "set": ["hashset", "treeset", "linkedhashset"],
+    "alg": ["hashset", "treeset", "linkedhashset"],
+    "heap": ["binaryheap", "priorityqueue"],
+    "cur": ["arraylist", "singlylinkedlist", "doublylinkedlist", "arraystack", "linkedliststack", "arrayqueue",
+            "linkedlistqueue", "circularbuffer", "priorityqueue", "binaryheap", "treeset", "linkedhashset", "treemap",
+            "linkedhashmap", "treebidimap", "redblacktree", "avltree", "btree"],
     "que": ["arraystack", "linkedliststack", "arrayqueue", "linkedlistqueue", "circularbuffer"],
 }
 
@@ -24,6 +30,32 @@ PLAN = {
                 mc=[]),
     "C01": dict(level="model_checking", design="6 C01",
                 traces=[dict(job="map", spec="TraceMap")],
+                mc=[]),
+    "C02": dict(level="model_checking", design="6 C02",
+                traces=[dict(job="map", spec="TraceMap", kinds=["treemap", "redblacktree", "avltree", "btree", "treebidimap"]),
+                        dict(job="set", spec="TraceSet", kinds=["treeset"])],
+                mc=[]),
+    "C07": dict(level="model_checking", design="6 C07",
+                traces=[dict(job="map", spec="TraceMap", kinds=["treemap", "redblacktree", "avltree", "btree", "treebidimap"])],
+                mc=[]),
+    "C10": dict(level="model_checking", design="6 C10",
+                traces=[dict(job="map", spec="TraceMap", kinds=["hashbidimap", "treebidimap"])],
+                mc=[]),
+    "C04": dict(level="model_checking", design="6 C04",
+                traces=[dict(job="set", spec="TraceSet")],
+                mc=[]),
+    "C06": dict(level="model_checking", design="6 C06",
+                traces=[dict(job="heap", spec="TraceHeap")],
+                mc=[]),
+    "C08": dict(level="model_checking", design="6 C08",
+                traces=[dict(job="cur", spec="TraceCursor")],
+                mc=[]),
+    "C09": dict(level="model_checking", design="6 C09",
+                traces=[dict(job="map", spec="TraceMap", kinds=["linkedhashmap"]),
+                        dict(job="set", spec="TraceSet", kinds=["linkedhashset"])],
+                mc=[]),
+    "C13": dict(level="model_checking", design="6 C13",
+                traces=[dict(job="alg", spec="TraceAlg")],
                 mc=[]),
     "C05": dict(level="model_checking", design="6 C05",
                 traces=[dict(job="que", spec="TraceQue")],
